@@ -5,6 +5,7 @@ From Coq Require Import ZArith Reals List Bool String.
 From VQ Require Import Num Model.Vec Model.Losses Proofs.LossProofs Glue.LossGlue Glue.Pin_p_losses.
 From VQ Require Import Proofs.StretchJensen.
 From VQ Require Import Proofs.StretchEntropyFull.
+From VQ Require Import Glue.Pin_fp_C17.
 Import ListNotations.
 Open Scope R_scope.
 
@@ -128,6 +129,11 @@ Theorem C17_entropy_chain_full :
        ln (INR (Datatypes.length (mean_dist ps))).
 Proof. exact (@StretchEntropyFull.entropy_chain_full). Qed.
 Print Assumptions C17_entropy_chain_full.
+
+Theorem C17_tie_source_footprint :
+  fp_C17.fp_C17 = pinned_fp_C17.
+Proof. exact (@Pin_fp_C17.pin_fp_C17). Qed.
+Print Assumptions C17_tie_source_footprint.
 (* The full chain  0 <= mean_i H(p_i) <= H(mean_i p_i) <= ln K  for ANY token distributions, including entries below the clamp eps
    and exact zeros, is C17_entropy_chain_full above (Proofs/StretchEntropyFull.v: t |-> - t ln (max t eps) is the minimum of a linear
    and a concave function; supporting-line Jensen).  The earlier partial statements (entries >= eps; two tokens) are kept as corollaries.
